@@ -79,7 +79,7 @@ def step (d : St) (toks : List String) : St × Option String :=
   | ["pol", "timeout"] => ({ d with ps := d.ps ++ [.timeout] }, none)
   | ["pol", "hedge", n, co] => ({ d with ps := d.ps ++ [.hedge (nat! n) (Classify.parseConds co)], hasHedge := true }, none)
   | ["pol", "cache", id, key, cif] =>
-    ({ d with ps := d.ps ++ [.cache (nat! id) (if key == "-" then "" else key) (if cif == "-" then none else some (nat! cif))] }, none)
+    ({ d with ps := d.ps ++ [.cache (nat! id) (if key == "-" then "" else key) (if cif == "-" then [] else (cif.splitOn ",").map (fun x => nat! x))] }, none)
   | ["ext", id, k] =>
     let bulk := d.w.bulk.mapIdx fun i cb => if i == nat! id then (cb.1, nat! k) else cb
     ({ d with w := { d.w with bulk := bulk } }, none)
